@@ -14,7 +14,7 @@ CLAIMED = {
     technique="TLA+ spec + TLC exhaustive check; state-graph-guided replay on the real lock manager; TLC trace validation"),
  "C15": dict(
     category="model_checking",
-    text="TLC checks the SlottedPage specification (table_page.go transcribed with the real layout constants 4096/24/8) exhaustively for 3 slots (thorough: 4) over the size alphabet {1,16,1000,2028,4064} (4064 fills a fresh page) for NoOverlap, HeaderSafe, FreeExact and Isolation; every edge of the state graph (about 133k) is then performed on a real TablePage and outcome, slot array, free-space pointer, header fields and the decoded content of every row are validated by TLC; random sequences of 300 operations with arbitrary sizes 1..4064 are validated against the same spec.",
+    text="TLC checks the SlottedPage specification (table_page.go transcribed with the real layout constants 4096/24/8) exhaustively for 3 slots (thorough: 4) over the size alphabet {1,16,1000,2028,4064} (4064 fills a fresh page) for NoOverlap, HeaderSafe, FreeExact and Isolation; every edge of the state graph (about 133k) is then performed on a real TablePage and outcome, slot array, free-space pointer, header fields and the decoded content of every row are validated by TLC; random sequences of 300 operations with arbitrary sizes 1..4064 are validated against the same spec. Heap level: spec/TableHeap (table_heap.go, table_heap_iterator.go: chains of slotted pages, InsertTuple page choice, UpdateTuple in place or moved, delete marks, iterator) is model-checked and bound to the code by random call sequences on a real TableHeap whose whole chain is projected after every call and judged by TLC (no other row changed, the call's own effect, Get and iterator answers; conformance to the mechanism counted separately).",
     design_ref="DESIGN.md section 5 C15",
     note="Trusted: TLC, the recording driver (harness/cmd/vdrive/page.go) and its payload encode/decode. Exhaustive within the alphabet and slot bound; arbitrary sizes sampled.",
     technique="TLA+ spec + TLC exhaustive check; state-graph-guided replay on a real TablePage; TLC trace validation of random operation sequences"),
